@@ -257,8 +257,10 @@ theorem h3settings_roundtrip (s : Settings) (out rest : Bytes) (fuel : Nat) (h :
   rw [List.append_assoc, List.append_assoc, read_append 4 x _ hx]
   simp only
   rw [read_append p.length y _ hy]
-  simp [parseSettingsFrame, h3settings_payload_roundtrip s p h hp]
-  rw [if_neg (by omega), if_neg (by omega)]
+  simp only [show (4 : Nat) ≠ 0 by decide, show (4 : Nat) ≠ 1 by decide, ↓reduceIte]
+  unfold parseSettingsFrame
+  rw [if_neg (by omega), if_neg (by simp)]
+  simp [h3settings_payload_roundtrip s p h hp, truncated]
 
 /-- HTTP/3 frame headers: DATA and HEADERS (type and length varints) -/
 theorem h3_frameHeader_roundtrip (l : Nat) (rest : Bytes) (fuel : Nat) (hl : l < 2^62) :
